@@ -1,6 +1,6 @@
 """C01 - pool reserves are always fully backed by the pool manager's real balances (structural premises)."""
 import re
-from rules.common import (opmap, PredTrue, PredFalse, TryOk, where, flat_atoms, all_origins, exact_origins, ops_of, show, origin_match, eq_test,
+from rules.common import (opmap, selects_by, PredTrue, PredFalse, TryOk, where, flat_atoms, all_origins, exact_origins, ops_of, show, origin_match, eq_test,
                           field_val, effects_signature, pool_writes, no_effects)
 from rules import swapcore as sc
 from base import CutPolicy, Check
@@ -86,20 +86,9 @@ def run(W, chk):
         ok = am == {"Store(POOLS).assets[*].amount": frozenset(["add"]), "info.funds[*].amount": frozenset(["add"])}
         chk.expect(ok, "PROV-deposit-credited", "ProvideLiquidity", "reserve_i += deposit_i (exact, checked add); nothing else is added",
                    "reserve update on deposit: %s" % {k: sorted(x) for k, x in am.items()}, where(e))
-    pos = [e for e in A.switches() if e.fn.endswith("provide_liquidity") and any(
-        isinstance(a[0], tuple) and a[0][0] == "pred" and a[0][1] == "discr" and "#may:pos" in a[0][2].fields for a in e.vals[0].atoms)]
-    okp = False
-    for e in pos:
-        for a in e.vals[0].atoms:
-            p = a[0][2].fields.get("#may:pos")
-            if p is None:
-                continue
-            for b in p.atoms:
-                if isinstance(b[0], tuple) and b[0][1] == "eq" and {tuple(sorted(exact_origins(b[0][2]))), tuple(sorted(exact_origins(b[0][3])))} == \
-                        {("Store(POOLS).assets[*].denom",), ("info.funds[*].denom",)}:
-                    okp = True
+    okp = selects_by(A, {"Store(POOLS).assets[*].denom"}, {"info.funds[*].denom"})
     chk.expect(okp, "PROV-deposit-credited", "index-by-denom", "the credited reserve is found by the deposit's own denom",
-               "reserve index for a deposit is not selected by `pool_asset.denom == deposit.denom`", A.entry)
+               "reserve for a deposit is not selected by `pool_asset.denom == deposit.denom`", A.entry)
     g = PredTrue("all deposits are pool assets", lambda pn, pa: pn == "all" and origin_match(pa[0], r"^(Store\(POOLS\)\.assets\[\*\]\.denom|info\.funds\[\*\]\.denom)$"))
     no_effects(chk, W, "CUT-deposit-denoms", PM, ("ProvideLiquidity",), [g], "", effects=lambda X: pool_writes(X) + c14.buf_events(X, "save"))
 
@@ -117,17 +106,8 @@ def run(W, chk):
                    "sent %s vs subtracted %s (reserve ops %s)" % (sorted(sent), sorted(sub), sorted(base)), where(pw[0]))
         den_s = all_origins(A.d(vfield(vfield(field_val(sends[0], "amount"), "[*]"), "denom")))
         chk.expect(den_s == {"Store(POOLS).assets[*].denom"}, "PROV-withdraw-same-vector", "denoms", "refund denoms are the pool's", "refund denoms %s" % sorted(den_s), where(sends[0]))
-        okp = False
-        for e in A.switches():
-            if not e.fn.endswith("withdraw_liquidity"):
-                continue
-            for a in e.vals[0].atoms:
-                if isinstance(a[0], tuple) and a[0][0] == "pred" and a[0][1] == "discr" and "#may:pos" in a[0][2].fields:
-                    for b in a[0][2].fields["#may:pos"].atoms:
-                        if isinstance(b[0], tuple) and b[0][1] == "eq" and exact_origins(b[0][2]) == {"Store(POOLS).assets[*].denom"} \
-                                and exact_origins(b[0][3]) == {"Store(POOLS).assets[*].denom"}:
-                            okp = True
-        n_enum = len([e for e in A.calls(r"Iterator::enumerate$") if e.fn.endswith("withdraw_liquidity")])
+        okp = selects_by(A, {"Store(POOLS).assets[*].denom"}, {"Store(POOLS).assets[*].denom"})
+        n_enum = len([e for e in A.calls(r"Iterator::enumerate$") if e.fn.startswith("pool_manager::liquidity")])
         chk.expect(okp and n_enum == 0, "PROV-withdraw-same-vector", "index-by-denom", "each refund is subtracted from the reserve with the refund's own denom",
                    "the reserve debited for a refund is not selected by denom (position-by-denom found: %s, positional enumerate: %d); after zero refunds "
                    "are filtered out the indices shift" % (okp, n_enum), A.entry)
